@@ -3,7 +3,7 @@ import warnings
 import z3
 warnings.filterwarnings("ignore", category=UserWarning)
 from vsym import core, solve, ob, mathx
-from vsym.core import SymReal, Fraction, ratval, toz, explore, fresh_real
+from vsym.core import SymReal, Fraction, ratval, toz, explore, fresh_real, exact_fraction
 from refs import tm as RT
 from checks import tmcommon as TC
 from checks import c01, c02
@@ -150,7 +150,7 @@ def _mk(fn, case):
 
 
 def groups(tier):
-    gs = [('axes', g_axes)]
+    gs = [('axes', g_axes), ('sequence', lambda tier, seed: g_sequence(tier, seed))]
     fw = [('sym', 'sym', 'sym', 'float'), ('sym', 'isg', 551, 'float'), ('sym', 'utm', 'auto', 'float')]
     iv = [('sym', 'sym', 'sym', 'south'), ('sym', 'sym', 'sym', 'north'), ('sym', 'isg', 551, 'south')]
     if tier == 'thorough':
@@ -161,3 +161,39 @@ def groups(tier):
     for c in iv:
         gs.append(('iv_%s_%s_%s' % (c[1], c[2], c[3]), _mk(inverse_case, c)))
     return gs
+
+
+def g_sequence(tier, seed):
+    """the same ellipsoid used with two projections one after the other in one process: the scale factor of the second call belongs to
+    the second projection (psf is proportional to the central scale factor; the convergence does not depend on it)"""
+    gc, cv, ga = _mods()
+    out = []
+
+    def run():
+        a, invf, ell = TC.sym_ell(gc)
+        xi1, eta1 = fresh_real('xi1', -1, 1), fresh_real('eta1', -1, 1)
+        lat, lon, cm = fresh_real('lat', -80, 84), fresh_real('lon', -180, 180), fresh_real('cm', -180, 180)
+        conf = fresh_real('conf', -2, 2)
+        k2 = fresh_real('k2', Fraction(9, 10), 1)
+        prj2 = gc.Projection(fresh_real('FE', 0, 1000000), fresh_real('FN', 0, 10000000), k2, fresh_real('zw', 1, 10), fresh_real('cm1', -180, 180))
+        r1 = cv.psfandgridconv(xi1, eta1, lat, lon, cm, conf, ell, gc.utm)
+        r2 = cv.psfandgridconv(xi1, eta1, lat, lon, cm, conf, ell, prj2)
+        r3 = cv.psfandgridconv(xi1, eta1, lat, lon, cm, conf, ell, gc.utm)
+        return k2, r1, r2, r3
+    with TC.summaries(cv):
+        paths, st = explore(run, max_paths=40, max_decisions=40)
+    mk = lambda env: {'env': env, 'what': 'sequence'}
+    n = 0
+    for p in paths:
+        if p.kind != 'return':
+            continue
+        n += 1
+        k2, r1, r2, r3 = p.value
+        k1 = ratval(exact_fraction(gc.utm.cmscale))
+        goal = z3.And(toz(r2[0]) * k1 == toz(r1[0]) * toz(k2), toz(r2[1]) == toz(r1[1]), toz(r3[0]) == toz(r1[0]), toz(r3[1]) == toz(r1[1]))
+        out.append(ob.decide_goal('O1', 'UTM, then a second projection, then UTM again on the same ellipsoid: each scale factor carries its own central '
+                                  'scale factor, the convergence is the same', ob.path_conds(p) + [c for c, _ in p.defined], goal, pid=PID,
+                                  oracle='oracles.c10:sequence', args_from_model=mk, key='O1:sequence', timeout_s=20))
+    if n == 0:
+        out.append(ob.res('O1', 'projection sequence', 'inconclusive', [], 'no returning path'))
+    return out
